@@ -1,6 +1,7 @@
 import DustVerif.Driver.Time
 import DustVerif.Driver.Hist
 import DustVerif.Driver.Match
+import DustVerif.Driver.Wire
 open DustVerif.Driver
 
 partial def loopStateless (h : IO.FS.Stream) (out : IO.FS.Stream) (f : String → String) : IO Unit := do
@@ -22,6 +23,7 @@ def main (args : List String) : IO UInt32 := do
   let stdout ← IO.getStdout
   match args with
   | ["time"] => loopStateless stdin stdout TimeEngine.step; return 0
+  | ["wire"] => loopStateless stdin stdout WireEngine.step; return 0
   | ["match"] => loopStateless stdin stdout MatchEngine.step; return 0
   | ["hist"] => loopStateful stdin stdout HistEngine.step HistEngine.defaultSt; return 0
   | _ => IO.eprintln "usage: dustmodel <engine>"; return 2
